@@ -340,10 +340,18 @@ Inductive event :=
      (* Head.Truncate(mint): gc deleted these series (oracle), actualInOrderMint (oracle); init = head initialised *)
 | EEvict (maxt : Z) (deleted : list ref)                  (* truncateStaleSeries / truncateSelectedSeries: gcSeries deleted these *)
 | ERestart (mv : Z) (actual : Z)                          (* Close; NewHead; Init(mv); actual = actualInOrderMint of Init's gc *)
-| ERoll.                                                  (* the WAL starts a new segment (what a full segment does) *)
+| ERoll                                                   (* the WAL starts a new segment (what a full segment does) *)
+| ECreate (l : list (ref * lab)).
+     (* an appender that is still open created these series in the head (getOrCreate at Append time, with
+        pendingCommit set); their series record is only logged by Commit.  Whether an existing series with an
+        uncommitted append survives Head.gc (memSeries.pendingCommit) is part of the gc oracle `deleted`. *)
+
+Definition add_series (cur : list (ref * lab)) (new : list (ref * lab)) : list (ref * lab) :=
+  fold_left (fun acc s => match lookup (fst s) acc with Some _ => acc | None => acc ++ [s] end) new cur.
 
 Definition ev_log (h : head) (l : list (Z * record)) : head :=
-  mkHead (h_series h ++ flat_map (fun sr => series_of_rec (snd sr)) l) (h_exp h) (h_last_trunc h) (wal_log (h_wal h) l).
+  mkHead (add_series (h_series h) (flat_map (fun sr => series_of_rec (snd sr)) l)) (h_exp h) (h_last_trunc h)
+         (wal_log (h_wal h) l).
 
 Definition ev_truncate (h : head) (init : bool) (mint : Z) (deleted : list ref) (actual : Z) : head :=
   let h1 := mkHead (drop_series deleted (h_series h)) (set_all deleted actual (h_exp h)) (h_last_trunc h) (h_wal h) in
@@ -365,6 +373,7 @@ Definition step (h : head) (e : event) : head :=
   | EEvict maxt del => ev_evict h maxt del
   | ERestart mv actual => ev_restart h mv actual
   | ERoll => mkHead (h_series h) (h_exp h) (h_last_trunc h) (wal_next_segment (h_wal h))
+  | ECreate l => mkHead (add_series (h_series h) l) (h_exp h) (h_last_trunc h) (h_wal h)
   end.
 
 Definition run (es : list event) : head := fold_left step es head_empty.
